@@ -37,8 +37,7 @@ Lemma in_earning_iff a : in_is_earning a = in_is_taxable a.
 Proof. reflexivity. Qed.
 Lemma out_always_taxable a : out_is_taxable a = true /\ out_is_earning a = false.
 Proof. split; reflexivity. Qed.
-Lemma intra_taxable_iff a : intra_is_taxable a = true <-> dgtb (x_fiat_fee a) dzero = true.
-Proof. reflexivity. Qed.
+(** (which transfers [intra_is_taxable] selects is read from the source: Proofs/TransferFee.v, [code_intra_taxable_iff_fee]) *)
 Lemma intra_never_earning a : intra_is_earning a = false.
 Proof. reflexivity. Qed.
 
@@ -49,12 +48,12 @@ Lemma amounts_matched :
   (forall a, intra_crypto_balance_change a = x_crypto_fee a).
 Proof. repeat split. Qed.
 
-(** membership in the taxable-event set *)
+(** membership in the taxable-event set, whatever the transfer-fee rule of the source is *)
 Lemma taxable_unsorted_iff (t : txs) (e : txn) :
   In e (taxable_unsorted t) <->
   (exists a, e = TIn a /\ In a (t_ins t) /\ is_earn_type (i_type a) = true) \/
   (exists a, e = TOut a /\ In a (t_outs t)) \/
-  (exists a, e = TIntra a /\ In a (t_intras t) /\ dgtb (x_fiat_fee a) dzero = true).
+  (exists a, e = TIntra a /\ In a (t_intras t) /\ intra_is_taxable a = true).
 Proof.
   unfold taxable_unsorted. rewrite !in_app_iff, !in_map_iff. split.
   - intros [[a [<- H]]|[[a [<- H]]|[a [<- H]]]]; apply filter_In in H; destruct H as [H1 H2].
@@ -72,7 +71,7 @@ Theorem taxable_events_iff (t : txs) evs (e : txn) :
   (In e evs <->
    (exists a, e = TIn a /\ In a (t_ins t) /\ is_earn_type (i_type a) = true) \/
    (exists a, e = TOut a /\ In a (t_outs t)) \/
-   (exists a, e = TIntra a /\ In a (t_intras t) /\ dgtb (x_fiat_fee a) dzero = true)).
+   (exists a, e = TIntra a /\ In a (t_intras t) /\ intra_is_taxable a = true)).
 Proof.
   unfold taxable_events. destruct (has_dup _) eqn:D; [discriminate|]. intros [= <-].
   rewrite sort_by_in. apply taxable_unsorted_iff.
